@@ -92,4 +92,85 @@ def dumpOk (known : Known) (dump : AMap String Rec) : Bool :=
 def learn (known : Known) (returned : List (String × Rec)) : Known :=
   returned.foldl (fun k p => AMap.set k p.1 p.2) known
 
+/-! ### the monitor as one pure function per observation line
+
+`drv-record monitor C19` parses the op line and the observation line and calls `stepFails` /
+`advance`; `Proofs/RecordMonitor.lean` proves that `stepFails` is `[]` on every model step. -/
+
+def hexChars (b : UInt8) : List Char := [Line.hexDigit (b.toNat / 16), Line.hexDigit (b.toNat % 16)]
+
+/-- an id as the observation lines print it: lower-case hex, two digits per byte (the same
+    string as `Line.hexOfBytes`, written as a list function) -/
+def hexId (i : Id) : String := String.ofList (i.toList.flatMap hexChars)
+
+/-- what the monitor carries from one observation line to the next -/
+structure Mon where
+  known : Known := []          -- every id returned by an accepted transaction, with its record
+  n     : Nat := 0             -- the store size of the previous observation line
+  deriving Inhabited
+
+/-- the parsed payload of an observation line -/
+inductive Obs where
+  | tx (returned : List (String × Rec))        -- `new=`  : ids returned by the transaction, read back
+  | query (found : Bool) (r : Rec)             -- `found= rec=`
+  | dump (d : AMap String Rec)                 -- `recs=` : the whole store
+  | none                                       -- no payload (`next_block`), or one that does not parse
+  deriving Inhabited
+
+/-- the monitor after a `reset` line that reports `n` stored records -/
+def resetMon (n : Nat) : Mon := { known := [], n := n }
+
+/-- the clauses that fail on one observation line (`word` = ok | rej | panic, `n'` = the
+    store size the line reports), in the order they are reported -/
+def stepFails (m : Mon) (op : Op) (word : String) (n' : Nat) (obs : Obs) : List String :=
+  (if word == "panic" then ["panic"] else []) ++
+  (match op, obs with
+   | .tx b msgs, .tx ret =>
+     if word == "ok" then
+       if !(createOk m.known (txHashOf b) msgs ret) then ["create-readback-unique"] else []
+     else
+       if !(ret.isEmpty && n' == m.n) then ["rejected-but-stored"] else []
+   | .query id, .query found r =>
+     if !(readOk m.known (hexId id) found r) then ["read-differs"] else []
+   | .queryAll, .dump d =>
+     if !(dumpOk m.known d) then ["record-lost-or-altered"] else []
+   | .nextBlock, _ => []
+   | _, _ => ["obs-parse"]) ++
+  -- the store never shrinks
+  (if n' < m.n then ["store-shrank"] else [])
+
+/-- the monitor memory after the line: the ids of an accepted transaction are learnt -/
+def advance (m : Mon) (op : Op) (word : String) (n' : Nat) (obs : Obs) : Mon :=
+  { known :=
+      match op, obs with
+      | .tx _ _, .tx ret => if word == "ok" then learn m.known ret else m.known
+      | _, _ => m.known
+    n := n' }
+
+/-! ### what the model driver prints, in structured form -/
+
+def noRec : Rec := { txHash := "", contents := [], creator := "" }
+
+def hexPair (p : Id × Rec) : String × Rec := (hexId p.1, p.2)
+
+/-- the first word of the model's observation line -/
+def modelWord (s : State) (op : Op) : String :=
+  match step s op with
+  | .ok _ => "ok"
+  | .error (.reject _) => "rej"
+  | .error (.panic _) => "panic"
+
+/-- the payload of the model's observation line for `op` (`Driver.Record.modelLine`): the created
+    ids read back from the new state, the queried record, or the dump of the new state (the
+    driver prints the dump sorted; the soundness theorem covers every permutation of it) -/
+def modelObs (s : State) (op : Op) : Obs :=
+  match op with
+  | .tx _ _ => .tx ((opEntries s op).map fun e => (hexId e.id, (getRecord (apply s op) e.id).getD noRec))
+  | .query id =>
+    match getRecord (apply s op) id with
+    | some rc => .query true rc
+    | none => .query false noRec
+  | .queryAll => .dump ((apply s op).recs.map hexPair)
+  | .nextBlock => .none
+
 end Irismod.Spec.C19
